@@ -12,7 +12,7 @@ from .transport import World, install
 class LiveManager:
     """The real server loop on an ephemeral loopback port, in a thread of this process."""
 
-    def __init__(self, version):
+    def __init__(self, version, host="127.0.0.1"):
         self.version = version
         self.device = SimDevice(mode=MODE_SIGNER, seed="c03")
         self.world = World(self.device, "hid")
@@ -31,7 +31,7 @@ class LiveManager:
                 return orig(handler)
             cs._TCPServerRequestHandler.shutdown = shutdown
             cs._TCPServerRequestHandler._verif_wrapped = True
-        self.srv = TCPServer("127.0.0.1", 0, self.proto)
+        self.srv = TCPServer(host, 0, self.proto)
         self.exc = None
         self.thread = threading.Thread(target=self._run, daemon=True)
         self.thread.start()
@@ -43,6 +43,10 @@ class LiveManager:
             raise core.MachineryError("manager did not start: %s" % self.exc)
         self.srv.server._verif_owner = self
         self.addr = self.srv.server.server_address
+        if host in ("0.0.0.0", ""):
+            # bound to every interface: clients reach it over IPv4 loopback, and try IPv6 loopback as well
+            self.addr = ("127.0.0.1", self.addr[1])
+            self.alt_addrs = [("::1", self.addr[1]), self.addr]
 
     def _run(self):
         try:
